@@ -891,13 +891,85 @@ func MustPassOK(g ssa.Instruction, v ssa.Value, fw FailWhen, boolFail *bool) (bo
 	return false, why
 }
 
-// CallHeeded applies MustPassOK to a guard call.
+// CallHeeded applies MustPassOK to a guard call. An error that is handed on as the function's own error (`return g(...)`,
+// `err := g(...); return err`) counts as heeded when no possibly-successful exit avoids the call.
 func CallHeeded(g ssa.CallInstruction, fw FailWhen, boolFail *bool) (bool, string) {
 	v := GuardValue(g, fw)
 	if v == nil {
 		return false, "the guard's result is not used"
 	}
-	return MustPassOK(g, v, fw, boolFail)
+	ok, why := MustPassOK(g, v, fw, boolFail)
+	if ok || fw != ErrNonNil {
+		return ok, why
+	}
+	if forwardedAsError(g, v) {
+		return true, ""
+	}
+	return ok, why
+}
+
+// forwardedAsError: the error value v of call g reaches only returns of g's function in the error position, and every
+// possibly-successful return that does not carry v is unreachable when g's block is removed.
+func forwardedAsError(g ssa.Instruction, v ssa.Value) bool {
+	fn := g.Parent()
+	d := Derived(v)
+	carries := map[*ssa.Return]bool{}
+	for x := range d {
+		refs := x.Referrers()
+		if refs == nil {
+			continue
+		}
+		for _, r := range *refs {
+			switch r := r.(type) {
+			case *ssa.DebugRef, *ssa.Store, *ssa.ChangeInterface, *ssa.MakeInterface, *ssa.ChangeType:
+			case *ssa.UnOp:
+			case *ssa.Return:
+				res := fn.Signature.Results()
+				okPos := false
+				for i := 0; i < res.Len(); i++ {
+					if IsErrorType(res.At(i).Type()) && i < len(r.Results) && d[ResolveSpill(r.Results[i])] {
+						okPos = true
+					}
+				}
+				if !okPos {
+					return false
+				}
+				carries[r] = true
+			default:
+				return false
+			}
+		}
+	}
+	if len(carries) == 0 {
+		// through a result spill: the return loads the cell
+		for _, r := range Returns(fn) {
+			res := fn.Signature.Results()
+			for i := 0; i < res.Len(); i++ {
+				if IsErrorType(res.At(i).Type()) && i < len(r.Results) && d[ResolveSpill(r.Results[i])] {
+					carries[r] = true
+				}
+			}
+		}
+	}
+	if len(carries) == 0 {
+		return false
+	}
+	r := reach([]*ssa.BasicBlock{fn.Blocks[0]}, map[*ssa.BasicBlock]bool{g.Block(): true}, nil)
+	for _, ret := range Returns(fn) {
+		if carries[ret] {
+			continue
+		}
+		if r[ret.Block()] && ClassifyReturn(ret, nil, nil) != RetFailure {
+			return false
+		}
+	}
+	// the returns that carry v must be dominated by g (they are reached only after the call)
+	for ret := range carries {
+		if !Dominates(g, ret) {
+			return false
+		}
+	}
+	return true
 }
 
 // ---------------------------------------------------------------------------------------------
